@@ -856,8 +856,41 @@ package zapcore
 // given a non-nil hook).
 //@ iface zapcore.SamplerOption.apply
 //@   params s
+//@   requires s != nil && unpublished(s)
 //@   modifies *s, $user
 //@   ensures s.Core == old(s.Core) && s.counts == old(s.counts) && (old(s.hook) != nil ==> s.hook != nil)
+
+//@ typeinv zapcore.optionFunc f: f != nil
+
+//@ func (zapcore.optionFunc).apply
+//@   props C11 C19
+//@   refines zapcore.SamplerOption.apply
+//@   flags trust-callees-nopanic
+//@   requires s != nil && unpublished(s)
+//@   modifies *s, $user
+//@   ensures s.Core == old(s.Core) && s.counts == old(s.counts) && (old(s.hook) != nil ==> s.hook != nil)
+
+//@ callback (zapcore.optionFunc).apply.f
+//@   params s
+//@   requires s != nil && unpublished(s)
+//@   modifies *s, $user
+//@   ensures s.Core == old(s.Core) && s.counts == old(s.counts) && (old(s.hook) != nil ==> s.hook != nil)
+
+// SamplerHook(nil) would leave the sampler without a hook; callers pass a non-nil hook.
+//@ func zapcore.SamplerHook
+//@   props C11 C19
+//@   flags nopanic
+//@   modifies nothing
+//@   ensures result != nil
+
+//@ func zapcore.SamplerHook$1
+//@   props C11 C19
+//@   refines callback:(zapcore.optionFunc).apply.f
+//@   flags nopanic
+//@   requires s != nil && unpublished(s)
+//@   assumes *hook != nil
+//@   modifies s.hook
+//@   ensures s.hook == *hook
 
 //@ func zapcore.NewSamplerWithOptions
 //@   props C11 C05
@@ -871,7 +904,7 @@ package zapcore
 //@   ensures len(opts) == 0 ==> as(result, type(*sampler)).Core == core && as(result, type(*sampler)).tick == tick && as(result, type(*sampler)).first == uint64(first) && as(result, type(*sampler)).thereafter == uint64(thereafter) && as(result, type(*sampler)).counts != nil && as(result, type(*sampler)).hook != nil
 //@   loop 1 invariant 0 <= $idx && $idx <= len(opts) && #AP == $idx
 //@   loop 1 invariant forall k int :: 0 <= k && k < $idx ==> AP.recv[k] == opts[k] && AP.arg0[k] == s
-//@   loop 1 invariant fresh(s) && type_frame(type(sampler)) && s.Core == core && s.counts != nil && s.hook != nil
+//@   loop 1 invariant fresh(s) && unpublished(s) && type_frame(type(sampler)) && s.Core == core && s.counts != nil && s.hook != nil
 //@   loop 1 invariant $idx == 0 ==> s.Core == core && s.tick == tick && s.first == uint64(first) && s.thereafter == uint64(thereafter) && s.counts != nil && s.hook != nil
 
 //@ func zapcore.newCounters
